@@ -5,6 +5,7 @@ package main
 import (
 	"fmt"
 	"go/types"
+	"strconv"
 
 	"golang.org/x/tools/go/ssa"
 )
@@ -197,7 +198,9 @@ func (r *FnRun) heapLoadLeafs(st *State, key string, addr *Term, t types.Type) V
 			return Scalar{sel("", BoolSort)}
 		}
 		if isString(t) {
-			return SliceV{Base: sel(".base", BV64), Off: sel(".off", BV64), Len: sel(".len", BV64)}
+			v := SliceV{Base: sel(".base", BV64), Off: sel(".off", BV64), Len: sel(".len", BV64)}
+			r.loadedSliceInvariant(st, v)
+			return v
 		}
 		if w, _, ok := basicInfo(t); ok {
 			return Scalar{sel("", BV(w))}
@@ -206,9 +209,13 @@ func (r *FnRun) heapLoadLeafs(st *State, key string, addr *Term, t types.Type) V
 		return Scalar{sel("", BV64)}
 	case *types.Slice:
 		if isByteSlice(t) {
-			return SliceV{Base: sel(".base", BV64), Off: sel(".off", BV64), Len: sel(".len", BV64), Cap: sel(".cap", BV64)}
+			v := SliceV{Base: sel(".base", BV64), Off: sel(".off", BV64), Len: sel(".len", BV64), Cap: sel(".cap", BV64)}
+			r.loadedSliceInvariant(st, v)
+			return v
 		}
-		return PSlice{Ptr: sel(".ptr", BV64), Len: sel(".len", BV64), Cap: sel(".cap", BV64), Elem: u.Elem()}
+		v := PSlice{Ptr: sel(".ptr", BV64), Len: sel(".len", BV64), Cap: sel(".cap", BV64), Elem: u.Elem()}
+		r.typeInvariant(v, t)
+		return v
 	case *types.Interface:
 		return IfaceV{Tag: sel(".tag", BV64), Data: sel(".data", BV64)}
 	case *types.Array:
@@ -452,4 +459,25 @@ func (r *FnRun) sliceContent(st *State, s SliceV) *Term {
 		return st.M
 	}
 	return r.tb().Select(st.BH, s.Base)
+}
+
+// loadedSliceInvariant: Go-level invariants of any slice/string value found in the typed heap
+// (0 <= len <= cap, the backing object is allocated). Memoised per term.
+func (r *FnRun) loadedSliceInvariant(st *State, v SliceV) {
+	tb := r.tb()
+	key := "sliceinv:" + strconv.Itoa(v.Len.id) + ":" + strconv.Itoa(v.Base.id) + ":" + strconv.Itoa(st.BA.id)
+	if r.root.counters[key] > 0 {
+		return
+	}
+	r.root.counters[key] = 1
+	zero := tb.BVI(64, 0)
+	lim := tb.BVU(64, 1<<48)
+	r.addFact(tb.And(tb.SLe(zero, v.Len), tb.SLt(v.Len, lim), tb.SLe(zero, v.Off), tb.SLt(v.Off, lim)))
+	if v.Cap != nil {
+		r.addFact(tb.And(tb.SLe(v.Len, v.Cap), tb.SLt(v.Cap, lim)))
+		r.addFact(tb.Implies(tb.Eq(v.Base, zero), tb.Eq(v.Cap, zero)))
+	} else {
+		r.addFact(tb.Implies(tb.Eq(v.Base, zero), tb.Eq(v.Len, zero)))
+	}
+	r.addFact(tb.Or(tb.Eq(v.Base, zero), tb.Select(st.BA, v.Base)))
 }
